@@ -100,8 +100,33 @@ func nodeState(c *core.Ctx, fn *core.Fn) (trueImpliesNil bool) {
 	info := fn.Pkg.TypesInfo
 	body := fn.Decl.Body
 	x := tt.New(cfgq.Of(c.Program, fn))
+	x.Prog = c.Program
 	name := fn.Decl.Name.Name
-	roleConst := func(e ast.Expr) string {
+	pkgInit := func(id *ast.Ident) ast.Expr { // initialiser of a package-level variable
+		v, ok := core.ObjOf(info, id).(*types.Var)
+		if !ok || v.Pkg() == nil || v.Parent() != v.Pkg().Scope() {
+			return nil
+		}
+		for _, f := range fn.Pkg.Syntax {
+			for _, d := range f.Decls {
+				gd, ok := d.(*ast.GenDecl)
+				if !ok {
+					continue
+				}
+				for _, sp := range gd.Specs {
+					if vs, ok := sp.(*ast.ValueSpec); ok && len(vs.Values) == len(vs.Names) {
+						for i, n := range vs.Names {
+							if info.Defs[n] == types.Object(v) {
+								return vs.Values[i]
+							}
+						}
+					}
+				}
+			}
+		}
+		return nil
+	}
+	roleConst := func(e ast.Expr, root ast.Node) string {
 		// a string constant reachable from e (regexp.MustCompile("^role:master"), HasPrefix(line, "role:master"))
 		found := ""
 		var visit func(n ast.Node, depth int)
@@ -115,8 +140,10 @@ func nodeState(c *core.Ctx, fn *core.Fn) (trueImpliesNil bool) {
 					found = s
 				}
 				if id, ok := ex.(*ast.Ident); ok && depth > 0 {
-					if d, ok := tt.SingleDef(info, body, id); ok && d.Rhs != nil && d.Range == nil {
+					if d, ok := tt.SingleDef(info, root, id); ok && d.Rhs != nil && d.Range == nil {
 						visit(d.Rhs, depth-1)
+					} else if init := pkgInit(id); init != nil {
+						visit(init, depth-1)
 					}
 				}
 				return true
@@ -137,7 +164,11 @@ func nodeState(c *core.Ctx, fn *core.Fn) (trueImpliesNil bool) {
 			o := core.ObjOf(info, id)
 			if errNames[o] == "" {
 				nm := ""
-				for _, d := range tt.DefsOf(info, body, o) {
+				root := l.Root
+				if root == nil {
+					root = body
+				}
+				for _, d := range tt.DefsOf(info, root, o) {
 					if d.Rhs == nil {
 						continue
 					}
@@ -164,7 +195,11 @@ func nodeState(c *core.Ctx, fn *core.Fn) (trueImpliesNil bool) {
 			return errNames[o], be.Op == token.NEQ, true
 		}
 		if _, ok := ast.Unparen(l.Expr).(*ast.CallExpr); ok && l.Loop != nil {
-			switch s := roleConst(l.Expr); {
+			root := l.Root
+			if root == nil {
+				root = body
+			}
+			switch s := roleConst(l.Expr, root); {
 			case strings.Contains(s, "role:master"):
 				return "reports-master", true, true
 			case strings.Contains(s, "role:slave"):
@@ -219,7 +254,26 @@ func nodeState(c *core.Ctx, fn *core.Fn) (trueImpliesNil bool) {
 	// a `true` answer carries a nil error
 	trueImpliesNil = true
 	n := 0
-	core.Inspect(body, func(m ast.Node) bool {
+	var scanReturns func(b *ast.BlockStmt, depth int)
+	var visitRet func(m ast.Node) bool
+	scanReturns = func(b *ast.BlockStmt, depth int) {
+		core.Inspect(b, func(m ast.Node) bool {
+			if r, ok := m.(*ast.ReturnStmt); ok && len(r.Results) == 1 && depth > 0 {
+				// tail call of a same-package helper that answers (bool, error)
+				if call, ok := ast.Unparen(r.Results[0]).(*ast.CallExpr); ok {
+					if h := c.FnOf(core.CalleeFunc(info, call)); h != nil && h.Decl.Body != nil && h.Pkg.TypesInfo == info && h.Obj != fn.Obj {
+						scanReturns(h.Decl.Body, depth-1)
+						return true
+					}
+				}
+				n++ // an answer that cannot be followed
+				trueImpliesNil = false
+				return true
+			}
+			return visitRet(m)
+		})
+	}
+	visitRet = func(m ast.Node) bool {
 		r, ok := m.(*ast.ReturnStmt)
 		if !ok || len(r.Results) != 2 {
 			return true
@@ -232,7 +286,8 @@ func nodeState(c *core.Ctx, fn *core.Fn) (trueImpliesNil bool) {
 			trueImpliesNil = false
 		}
 		return true
-	})
+	}
+	scanReturns(body, 2)
 	if n == 0 {
 		c.Undecidedf("R1.node", name+"/master-without-error", fn.Decl.Pos(), "no return that can answer true")
 		return false
@@ -267,14 +322,56 @@ func identObj(info *types.Info, e ast.Expr) types.Object {
 	return core.ObjOf(info, id)
 }
 
-func selection(c *core.Ctx, fn, node *core.Fn, trueNil bool) {
-	info := fn.Pkg.TypesInfo
+// probeHost: callee probes one node (getRedisNodeState itself, or a same-package helper that only
+// forwards one of its parameters to it); returns the index of the host argument.
+func probeHost(c *core.Ctx, info *types.Info, node *core.Fn, callee types.Object) (int, bool) {
+	if callee == types.Object(node.Obj) {
+		return 0, true
+	}
+	f, _ := callee.(*types.Func)
+	h := c.FnOf(f)
+	if h == nil || h.Decl.Body == nil || h.Pkg.TypesInfo != info || len(h.Decl.Body.List) != 1 {
+		return 0, false
+	}
+	r, ok := h.Decl.Body.List[0].(*ast.ReturnStmt)
+	if !ok || len(r.Results) != 1 {
+		return 0, false
+	}
+	call, ok := ast.Unparen(r.Results[0]).(*ast.CallExpr)
+	if !ok || core.Callee(info, call) != types.Object(node.Obj) || len(call.Args) == 0 {
+		return 0, false
+	}
+	k := 0
+	for _, fl := range h.Decl.Type.Params.List {
+		for _, n := range fl.Names {
+			if identObj(info, call.Args[0]) == info.Defs[n] {
+				return k, true
+			}
+			k++
+		}
+	}
+	return 0, false
+}
+
+func selection(c *core.Ctx, rec, node *core.Fn, trueNil bool) {
+	info := rec.Pkg.TypesInfo
+	name := rec.Decl.Name.Name
+	isProbe := func(_ *ast.CallExpr, callee types.Object) bool { _, ok := probeHost(c, info, node, callee); return ok }
+	// the probing loop lives in recursiveGetSlotState or in a same-package helper it calls
+	fn := rec
+	var viaCall *ast.CallExpr
+	if len(core.Calls(rec.Decl.Body, info, isProbe)) == 0 {
+		for _, call := range core.Calls(rec.Decl.Body, info, func(*ast.CallExpr, types.Object) bool { return true }) {
+			if h := c.FnOf(core.CalleeFunc(info, call)); h != nil && h.Decl.Body != nil && h.Pkg.TypesInfo == info && h.Obj != rec.Obj && len(core.Calls(h.Decl.Body, info, isProbe)) > 0 {
+				fn, viaCall = h, call
+			}
+		}
+	}
 	body := fn.Decl.Body
 	g := cfgq.Of(c.Program, fn)
 	x := tt.New(g)
-	name := fn.Decl.Name.Name
 	// the probe
-	calls := core.Calls(body, info, func(_ *ast.CallExpr, callee types.Object) bool { return callee == types.Object(node.Obj) })
+	calls := core.Calls(body, info, isProbe)
 	if len(calls) != 1 {
 		c.Undecidedf("R1.select", name+"/probe", fn.Decl.Pos(), "expected one call of getRedisNodeState, found %d", len(calls))
 		return
@@ -282,11 +379,12 @@ func selection(c *core.Ctx, fn, node *core.Fn, trueNil bool) {
 	pp, _ := g.Find(calls[0])
 	pas, ok := pp.Node().(*ast.AssignStmt)
 	loop, _ := x.LoopOf(calls[0]).(*ast.RangeStmt)
-	if !ok || len(pas.Lhs) != 2 || loop == nil || len(calls[0].Args) == 0 {
+	hostIdx, _ := probeHost(c, info, node, core.Callee(info, calls[0]))
+	if !ok || len(pas.Lhs) != 2 || loop == nil || len(calls[0].Args) <= hostIdx {
 		c.Undecidedf("R1.select", name+"/probe", calls[0].Pos(), "the probe is not `isMaster, err = getRedisNodeState(host, ...)` inside a range loop")
 		return
 	}
-	isMaster, perr, host := identObj(info, pas.Lhs[0]), identObj(info, pas.Lhs[1]), identObj(info, calls[0].Args[0])
+	isMaster, perr, host := identObj(info, pas.Lhs[0]), identObj(info, pas.Lhs[1]), identObj(info, calls[0].Args[hostIdx])
 	if isMaster == nil || host == nil || host != identObj(info, loop.Value) {
 		c.Undecidedf("R1.select", name+"/probe", calls[0].Pos(), "the probed host is not the loop's element or the answer is not kept in a variable")
 		return
@@ -355,8 +453,31 @@ func selection(c *core.Ctx, fn, node *core.Fn, trueNil bool) {
 			flagSets = append(flagSets, as)
 		}
 	}
+	// the flag and the result as recursiveGetSlotState sees them
+	rflag, rres, rx := flag, res, x
+	if viaCall != nil && flag != nil {
+		rflag, rres = nil, nil
+		rg := cfgq.Of(c.Program, rec)
+		rx = tt.New(rg)
+		vp, _ := rg.Find(viaCall)
+		if vas, ok := vp.Node().(*ast.AssignStmt); ok && len(vas.Rhs) == 1 {
+			core.Inspect(body, func(n ast.Node) bool {
+				if r, ok := n.(*ast.ReturnStmt); ok && len(r.Results) == len(vas.Lhs) {
+					for i, e := range r.Results {
+						if identObj(info, e) == flag {
+							rflag = identObj(info, vas.Lhs[i])
+						}
+						if identObj(info, e) == res {
+							rres = identObj(info, vas.Lhs[i])
+						}
+					}
+				}
+				return true
+			})
+		}
+	}
 	var rets []*ast.ReturnStmt
-	core.Inspect(body, func(n ast.Node) bool {
+	core.Inspect(rec.Decl.Body, func(n ast.Node) bool {
 		if r, ok := n.(*ast.ReturnStmt); ok && len(r.Results) == 2 && core.IsNil(info, r.Results[1]) && !core.IsNil(info, r.Results[0]) {
 			if _, isCall := ast.Unparen(r.Results[0]).(*ast.CallExpr); !isCall {
 				rets = append(rets, r)
@@ -364,11 +485,11 @@ func selection(c *core.Ctx, fn, node *core.Fn, trueNil bool) {
 		}
 		return true
 	})
-	if flag == nil || len(rets) == 0 {
+	if flag == nil || rflag == nil || rres == nil || len(rets) == 0 {
 		c.Undecidedf("R1.select", name+"/found-flag", loop.Pos(), "no 'master found' flag / success return recognised")
 		return
 	}
-	flagTrue := func(f cfgq.Fact) bool { return tt.BoolLocal(info, f.Expr) == flag && f.Val }
+	flagTrue := func(f cfgq.Fact) bool { return tt.BoolLocal(info, f.Expr) == rflag && f.Val }
 	okFlag := true
 	var wf []string
 	for _, s := range flagSets {
@@ -386,8 +507,8 @@ func selection(c *core.Ctx, fn, node *core.Fn, trueNil bool) {
 	}
 	c.Check("R1.select", name+"/found-flag", flagSets[0].Pos(), okFlag, "the 'master found' flag starts false and is set only when a probe answered master", wf...)
 	for _, r := range rets {
-		ok, w := x.OnlyVia(cfgq.Point{}, r, flagTrue)
-		c.Check("R1.select", name+"/success-only-with-master", r.Pos(), ok && core.Mentions(info, r.Results[0], res), "the topology is returned as a success only when a master was found in this pass: otherwise the tool syncs from the stale source (possibly a replica) instead of retrying / failing", w...)
+		ok, w := rx.OnlyVia(cfgq.Point{}, r, flagTrue)
+		c.Check("R1.select", name+"/success-only-with-master", r.Pos(), ok && core.Mentions(info, r.Results[0], rres), "the topology is returned as a success only when a master was found in this pass: otherwise the tool syncs from the stale source (possibly a replica) instead of retrying / failing", w...)
 	}
 
 	// ---- R2 / R4: the paths of one iteration
@@ -455,22 +576,119 @@ func selection(c *core.Ctx, fn, node *core.Fn, trueNil bool) {
 	c.Check("R4.probe", name+"/no-early-exit", loop.Pos(), earlyExit == nil, "the probing loop must visit every node: with a break/return inside the loop the nodes after the first master are not listed as replicas", earlyExit...)
 
 	// the host list: Source followed by all Slaves of the supervisor's slot
-	hl := tt.Resolve(info, body, loop.X, 2)
-	okList := false
-	if call, ok := hl.(*ast.CallExpr); ok && len(call.Args) == 2 && call.Ellipsis.IsValid() {
-		if id, ok := call.Fun.(*ast.Ident); ok && id.Name == "append" {
-			if lit, ok := ast.Unparen(call.Args[0]).(*ast.CompositeLit); ok && len(lit.Elts) == 1 {
-				b1, ok1 := isNodeField(info, lit.Elts[0], "Source")
-				b2, ok2 := isNodeField(info, call.Args[1], "Slaves")
-				okList = ok1 && ok2 && core.IsFieldNamed(info, b1, sup, "slot") && core.IsFieldNamed(info, b2, sup, "slot")
-			}
-		}
-	}
-	if okList {
+	items, okItems := hostItems(info, fn, loop.X, loop, 3)
+	if okItems && len(items) == 2 && items[0] == "Source" && items[1] == "Slaves..." {
 		c.Okf("R4.probe", name+"/host-list", loop.Pos(), "the probed hosts are the known Source followed by all known Slaves")
 	} else {
-		c.Undecidedf("R4.probe", name+"/host-list", loop.Pos(), "the host list `%s` is not recognised as append([]string{s.slot.Source}, s.slot.Slaves...)", c.Src(hl))
+		c.Undecidedf("R4.probe", name+"/host-list", loop.Pos(), "the host list `%s` is not recognised as the supervisor's Source followed by its Slaves (%v)", c.Src(tt.Resolve(info, body, loop.X, 2)), items)
 	}
+}
+
+// hostItems evaluates a []string expression built with literals and append from the fields of
+// s.slot: "Source", "Slaves..." in order. Locals are followed through their definitions when these
+// are top-level statements of the function that precede the loop.
+func hostItems(info *types.Info, fn *core.Fn, e ast.Expr, loop *ast.RangeStmt, depth int) ([]string, bool) {
+	field := func(e ast.Expr, spread bool) (string, bool) {
+		for _, f := range []string{"Source", "Slaves"} {
+			if b, ok := isNodeField(info, e, f); ok && core.IsFieldNamed(info, b, sup, "slot") && (f == "Slaves") == spread {
+				if spread {
+					return f + "...", true
+				}
+				return f, true
+			}
+		}
+		return "", false
+	}
+	e = ast.Unparen(e)
+	switch v := e.(type) {
+	case *ast.CompositeLit:
+		var out []string
+		for _, el := range v.Elts {
+			it, ok := field(el, false)
+			if !ok {
+				return nil, false
+			}
+			out = append(out, it)
+		}
+		return out, true
+	case *ast.CallExpr:
+		id, ok := v.Fun.(*ast.Ident)
+		if !ok {
+			return nil, false
+		}
+		switch id.Name {
+		case "make":
+			return nil, len(v.Args) >= 2 && func() bool { n, ok := core.IntConst(info, v.Args[1]); return ok && n == 0 }()
+		case "append":
+			if len(v.Args) == 0 {
+				return nil, false
+			}
+			out, ok := hostItems(info, fn, v.Args[0], loop, depth)
+			if !ok {
+				return nil, false
+			}
+			for i, a := range v.Args[1:] {
+				it, ok := field(a, v.Ellipsis.IsValid() && i == len(v.Args)-2)
+				if !ok {
+					return nil, false
+				}
+				out = append(out, it)
+			}
+			return out, true
+		}
+	case *ast.Ident:
+		if depth == 0 {
+			return nil, false
+		}
+		o := identObj(info, v)
+		var out []string
+		k := 0
+		for _, d := range tt.DefsOf(info, fn.Decl.Body, o) {
+			st, isStmt := d.Stmt.(ast.Stmt)
+			top := false
+			for _, s := range fn.Decl.Body.List {
+				if isStmt && s == st {
+					top = true
+				}
+				if ds, ok := s.(*ast.DeclStmt); ok && ds.Pos() <= d.Stmt.Pos() && d.Stmt.End() <= ds.End() {
+					top = true
+				}
+			}
+			if !top || d.Stmt.Pos() >= loop.Pos() {
+				return nil, false
+			}
+			if d.Rhs == nil {
+				continue // var hosts []string
+			}
+			k++
+			if k > 1 {
+				// a later definition must extend the list itself: hosts = append(hosts, ...)
+				call, ok := ast.Unparen(d.Rhs).(*ast.CallExpr)
+				if !ok || len(call.Args) == 0 || identObj(info, call.Args[0]) != o {
+					return nil, false
+				}
+				id, _ := call.Fun.(*ast.Ident)
+				if id == nil || id.Name != "append" {
+					return nil, false
+				}
+				for i, a := range call.Args[1:] {
+					it, ok := field(a, call.Ellipsis.IsValid() && i == len(call.Args)-2)
+					if !ok {
+						return nil, false
+					}
+					out = append(out, it)
+				}
+				continue
+			}
+			items, ok := hostItems(info, fn, d.Rhs, loop, depth-1)
+			if !ok {
+				return nil, false
+			}
+			out = items
+		}
+		return out, true
+	}
+	return nil, false
 }
 
 func describe(c *core.Ctx, t *tt.Trace) []string {
